@@ -66,7 +66,9 @@ func genC11M(t *rapid.T) c11mScenario {
 		}
 		switch {
 		case k < 2:
-			op := c11mOp{Kind: "new", EndOff: rapid.SampledFrom([]int{300, 3600, 36000}).Draw(t, "end")}
+			// end offsets in seconds; -1: a "permanent" silence ending at the last instant the API can express
+			// (9999-12-31T23:59:59Z), whose expiry (end + retention) lies beyond the range of protobuf timestamps
+			op := c11mOp{Kind: "new", EndOff: rapid.SampledFrom([]int{300, 3600, 36000, -1}).Draw(t, "end")}
 			if sc.SizeLimit > 0 && rapid.Bool().Draw(t, "max") {
 				op.Kind = "new-max"
 			}
@@ -103,6 +105,7 @@ func execC11M(sc c11mScenario) (res pbt.Result) {
 	silFile, nflFile := filepath.Join(dir, "silences"), filepath.Join(dir, "nflog")
 	changedAfterSnapshot := false
 	sizeLimited := false
+	farEnd := false
 	synctest.Test(pbt.T(), func(*testing.T) {
 		compat.InitFromFlags(nopLog, featurecontrol.NoopFlags{})
 		ctx := context.Background()
@@ -136,6 +139,10 @@ func execC11M(sc c11mScenario) (res pbt.Result) {
 			case "new":
 				s := &pb.Silence{MatcherSets: []*pb.MatcherSet{{Matchers: []*pb.Matcher{{Type: pb.Matcher_EQUAL, Name: "a", Pattern: fmt.Sprintf("v%d", i)}}}},
 					StartsAt: timestamppb.New(now), EndsAt: timestamppb.New(now.Add(time.Duration(op.EndOff) * time.Second)), CreatedBy: "c11m", Comment: "c0"}
+				if op.EndOff < 0 {
+					s.EndsAt = timestamppb.New(time.Date(9999, 12, 31, 23, 59, 59, 0, time.UTC))
+					farEnd = true
+				}
 				if err := sil.Set(ctx, s); err != nil {
 					res.Fail("harness", "Set: %v", err)
 				} else {
@@ -148,6 +155,10 @@ func execC11M(sc c11mScenario) (res pbt.Result) {
 				for n := sc.SizeLimit; n >= 0; n-- {
 					s := &pb.Silence{MatcherSets: []*pb.MatcherSet{{Matchers: []*pb.Matcher{{Type: pb.Matcher_EQUAL, Name: "a", Pattern: fmt.Sprintf("v%d", i)}}}},
 						StartsAt: timestamppb.New(now), EndsAt: timestamppb.New(now.Add(time.Duration(op.EndOff) * time.Second)), CreatedBy: "c11m", Comment: strings.Repeat("c", n)}
+					if op.EndOff < 0 {
+						s.EndsAt = timestamppb.New(time.Date(9999, 12, 31, 23, 59, 59, 0, time.UTC))
+						farEnd = true
+					}
 					if err := sil.Set(ctx, s); err == nil {
 						okS = s
 						break
@@ -297,6 +308,9 @@ func execC11M(sc c11mScenario) (res pbt.Result) {
 	}
 	if sizeLimited {
 		res.Class("silence-at-the-size-limit")
+	}
+	if farEnd {
+		res.Class("silence-ending-9999-12-31")
 	}
 	return res
 }
